@@ -93,6 +93,8 @@ class Ctx:
                 key = k['id']
                 if key not in [h[0] for h in self.known_hits]:
                     self.known_hits.append((key, k.get('what', what)))
+                    with open(f'{VERIF}/replays/KNOWN_{key}.json', 'w') as f:
+                        json.dump(rec, f, indent=1, default=repr)
                 return
         # keep at most a few distinct violations per leg
         if sum(1 for v in self.violations if v['leg'] == leg) >= 3:
